@@ -93,11 +93,19 @@ def h_roundtrip(ctx):
     from joserfc import jwt, jwe
     family, alg, kind = ctx.choose("transport", TRANSPORTS)
     kform = ctx.choose("key_form", ["key", "set", "callable", "set1"])
-    hdr_kind = ctx.choose("header", ["plain", "typ-explicit", "typ-JWT", "typ-empty-string", "extra-members"])
+    hdr_kind = ctx.choose("header", ["plain", "typ-explicit", "typ-JWT", "typ-empty-string", "extra-members", "application-member"])
     what_claims = ctx.choose("claims_kind", ["json", "datetime"])
     # an application registry is usually a subclass; an application encoder usually knows a few extra types and nothing about dates
-    reg_kind = ctx.choose("registry", ["allow-list", "registry-instance", "registry-subclass"])
+    reg_kind = ctx.choose("registry", ["allow-list", "registry-instance", "registry-subclass", "registry-nonstrict", "registry-knowing-the-application-member",
+                                       "registry-subclass-knowing-the-application-member"])
+    # a registry that is configured for the application, with the allow-list repeated next to it (JWS: the registry is what counts)
+    both = family == "jws" and reg_kind != "allow-list" and ctx.choose("algorithms_next_to_the_registry", [False, True])
+    if (hdr_kind == "application-member") != (reg_kind in ("registry-nonstrict", "registry-knowing-the-application-member", "registry-subclass-knowing-the-application-member")):
+        return Outcome("n/a", [], nontrivial=None)       # a header member of the application's own needs a registry that admits it, and only then is such a registry of interest
     enc_kind = ctx.choose("encoder_cls", ["default", "application-encoder"]) if what_claims == "datetime" else "default"
+    # an application decoder that reads the same JSON values (its own constructor signature, its own hooks) returns the same claims
+    dec_kind = ctx.choose("decoder_cls", ["default", "application-decoder-with-its-own-constructor", "application-decoder-with-its-own-pairs-hook",
+                                          "application-decoder-with-an-object-hook"] if hdr_kind == "plain" and reg_kind in ("allow-list", "registry-instance") else ["default"])
     if what_claims == "json":
         claims = copy.deepcopy(ctx.choose("claims", claim_sets()))
         expected = [json.loads(json.dumps(claims))]
@@ -117,6 +125,8 @@ def h_roundtrip(ctx):
         header["typ"] = "JWT"
     elif hdr_kind == "typ-empty-string":
         header["typ"] = ""             # explicit, though empty: it overrides the default like any other explicit value
+    elif hdr_kind == "application-member":
+        header["tenant"] = "acme"
     elif hdr_kind == "extra-members":
         header["cty"] = "x"
         header["kid"] = None  # placeholder, replaced below when a set is used
@@ -127,12 +137,31 @@ def h_roundtrip(ctx):
 
     class ApplicationRegistry(base_cls):
         """what an application that wants its own defaults writes"""
-    if family == "jwe" or reg_kind != "allow-list":
-        reg = (ApplicationRegistry if reg_kind == "registry-subclass" else base_cls)(algorithms=[alg, enc] if family == "jwe" else [alg])
+    from joserfc.registry import HeaderParameter
+
+    if family == "jws":
+        class TenantRegistry(base_cls):
+            default_header_registry = {**base_cls.default_header_registry, "tenant": HeaderParameter("Tenant", "str")}
+    else:
+        class TenantRegistry(base_cls):
+            def __init__(self, **kwargs):
+                super().__init__(header_registry={"tenant": HeaderParameter("Tenant", "str")}, **kwargs)
+    allow = [alg, enc] if family == "jwe" else [alg]
+    if reg_kind == "registry-nonstrict":
+        reg = base_cls(algorithms=allow, strict_check_header=False)
+    elif reg_kind == "registry-knowing-the-application-member":
+        reg = base_cls(algorithms=allow, header_registry={"tenant": HeaderParameter("Tenant", "str")})
+    elif reg_kind == "registry-subclass-knowing-the-application-member":
+        reg = TenantRegistry(algorithms=allow)
+    elif family == "jwe" or reg_kind != "allow-list":
+        reg = (ApplicationRegistry if reg_kind == "registry-subclass" else base_cls)(algorithms=allow)
     else:
         reg = None
     ekey, kid = keys_for(kind, kform, private=(family == "jws"))
     kw = {"registry": reg} if reg else {"algorithms": [alg]}
+    if both:
+        kw["algorithms"] = [alg]
+        reg_kind += " + algorithms"
     ekw = dict(kw)
     if enc_kind != "default":
         class ApplicationEncoder(json.JSONEncoder):
@@ -155,9 +184,29 @@ def h_roundtrip(ctx):
     if header != given_header:
         vs.append(viol(f"jwt.encode alters the caller's header ({hdr_kind}, key as {kform}, {family})", f"{given_header} -> {header}"))
     dkey, _ = keys_for(kind, kform, private=(family == "jwe"))
-    d = call(jwt.decode, r.value, dkey, **kw)
+    dkw = dict(kw)
+    if dec_kind.endswith("its-own-constructor"):
+        class ApplicationDecoder(json.JSONDecoder):
+            def __init__(self):
+                super().__init__(parse_int=int)
+        dkw["decoder_cls"] = ApplicationDecoder
+    elif dec_kind.endswith("its-own-pairs-hook"):
+        import collections
+
+        class ApplicationDecoder(json.JSONDecoder):
+            def __init__(self, **kwargs):
+                super().__init__(object_pairs_hook=collections.OrderedDict, **kwargs)
+        dkw["decoder_cls"] = ApplicationDecoder
+    elif dec_kind.endswith("an-object-hook"):
+        class ApplicationDecoder(json.JSONDecoder):
+            def __init__(self, **kwargs):
+                super().__init__(object_hook=lambda o: dict(o), **kwargs)
+        dkw["decoder_cls"] = ApplicationDecoder
+    if dec_kind != "default":
+        what += f", decoded with an {dec_kind}"
+    d = call(jwt.decode, r.value, dkey, **dkw)
     if not d.ok:
-        vs.append(viol(f"jwt.decode of an encoded token fails: {tag}", f"{what}: {d.exc!r}"))
+        vs.append(viol(f"jwt.decode of an encoded token fails: {tag}" + ("" if dec_kind == "default" else " [application decoder]"), f"{what}: {d.exc!r}"))
     else:
         tok = d.value
         if tok.claims not in expected or any(type(a) is not type(b) for a, b in zip(_leaves(tok.claims), _leaves(expected[expected.index(tok.claims)]))):
@@ -173,7 +222,7 @@ def h_roundtrip(ctx):
                 got_hdr.pop(gen, None)
         if got_hdr != want_hdr:
             vs.append(viol(f"decoded header differs from the given one plus typ ({hdr_kind}, {family})", f"{what}: want {want_hdr} got {got_hdr}"))
-    return Outcome(f"{family}:{what_claims}:{'ok' if not vs else 'bad'}", vs, nontrivial=(tag, hdr_kind, what_claims, repr(claims)[:100], reg_kind, enc_kind))
+    return Outcome(f"{family}:{what_claims}:{'ok' if not vs else 'bad'}", vs, nontrivial=(tag, hdr_kind, what_claims, repr(claims)[:100], reg_kind, enc_kind, dec_kind))
 
 
 def _leaves(x):
